@@ -12,7 +12,7 @@ git -C /repo worktree remove --force $W >/dev/null 2>&1
 git -C /repo worktree add --detach $W HEAD >/dev/null 2>&1
 FLAGS="-std=gnu99 -DNDEBUG -DSYSTEM_ENDIANNESS_LITTLE -DUFW_USE_BUILTIN_SWAP -D_DEFAULT_SOURCE"
 # compile command for the demo: all library sources that are not tests/zephyr/posix-specific
-srcs() { ls $1/src/*.c $1/src/endpoints/*.c $1/src/registers/*.c $1/src/compat/*.c | grep -v "instrumentable\|hexdump" ; }
+srcs() { ls $1/src/*.c $1/src/endpoints/*.c $1/src/registers/*.c $1/src/compat/*.c ; }
 cmake -G Ninja -B $W/_build -S $W -DCMAKE_BUILD_TYPE=RelWithDebInfo >/dev/null 2>&1
 # pristine demo
 gcc $FLAGS -w -I$W/include -I$W/_build/include $OUT/demo.c $(srcs $W) -lm -o /tmp/ev-$P-$V.pristine 2>/tmp/ev-$P-$V.cc.log
